@@ -7,22 +7,28 @@ ROOT = Path(__file__).resolve().parent.parent
 
 # id -> (level text, level note, technique, design_ref)
 CLAIMED = {
-    "C03": ("Lean 4 model of CouplingMarkovChain / CouplingLevyCopula: refine, the probability of an odd fine state moving right "
-            "(probability_to_right_jump), coupling_state for 1-d and for the n-d corner recursion, and the level record carried by "
-            "next_level (grid, fine/coarse diffusion coefficient, frozen drift, shared Brownian increments). Theorems for every strictly "
-            "increasing axis, every cell-boundary function strictly inside its gap, every mass additive and non-negative on one-sided "
-            "intervals, every level: even increments are copied, odd ones go to an adjacent coarse state; fine cells nest in coarse "
-            "cells; the rate-weighted coupled jumps reproduce exactly the level-(l-1) rates (telescoping_1d, per state, at every level "
-            "of refine^k) and the coarse intensity is the fine one minus the mass sent to the origin; zero-mass cells contribute "
-            "nothing; after l next_level calls the coarse diffusion/drift are those of level l-1 and both chains consume the same "
-            "Brownian increments; n-d: corner probabilities sum to 1 (the 'numerical error' raise is unreachable), telescoping holds "
-            "for independent components; a kernel-decided rational counter-example shows it FAILS for dependent copulas as coded "
-            "(recorded finding). Correspondence: real couplings (1-d, copula, SDE) through 1..3 real next_level calls vs the model fed "
-            "with the implementation's own masses (2^-40), coupling_state at the model's breakpoints with the uniform patched; oracle: "
-            "the telescoping identity on the implementation's exact corner probabilities.",
-            "Partial: n-d theorems for d = 2 on equal axes (d = 3 compared only); dependent-copula telescoping false of the code (known "
-            "finding); additivity of the concrete measures is C09/C11/C12's subject; payoff expectations not modelled; two recorded findings.",
-            "Lean 4 proof (telescoping over nested cells, induction over levels, kernel-decided counter-example) + differential correspondence",
+    "C03": ("Lean 4 model of CouplingMarkovChain / CouplingLevyCopula / CouplingSDE: refine, the probability of an odd fine state "
+            "moving right, coupling_state in 1-d and the n-d corner recursion, and the level records carried by next_level (grid, "
+            "fine/coarse diffusion coefficient, frozen drift, shared Brownian increments; for the SDE coupling the driver drift, "
+            "diffusion coefficient and maximum step each component reads). Theorems for every strictly increasing axis, every "
+            "cell-boundary function strictly inside its gap, every mass additive and non-negative on one-sided intervals, every "
+            "level: even increments are copied, odd ones go to an adjacent coarse state; fine cells nest in coarse cells; the "
+            "rate-weighted coupled jumps reproduce exactly the level-(l-1) rates per state at every level of refine^k and the "
+            "coarse intensity is the fine one minus the mass sent to the origin; zero-mass cells contribute nothing; after l "
+            "next_level calls the coarse drift/diffusion (and, for the SDE coupling, driver quantities and step) are those of level "
+            "l-1 and both components consume the same Brownian increments. n-d (d = 2 and d = 3, equal axes): corner probabilities "
+            "sum to 1 for every parity of the increment (the 'numerical error' raise is unreachable), telescoping holds for mass "
+            "carried by the coordinate axes (independent components); d = 2 on two different axes: what holds is proved, the rest "
+            "refuted by a kernel-decided witness; a kernel-decided rational counter-example shows telescoping FAILS for dependent "
+            "copulas as coded (recorded findings). Correspondence: real couplings (1-d, copula 2-d/3-d, credit grids with two "
+            "thresholds, SDE) through 1..4 real next_level calls vs the model fed the implementation's own masses, coupling_state "
+            "at the model's breakpoints with the uniform patched, the SDE record at every level; oracle: the telescoping identity "
+            "on the implementation for all six 1-d sampling methods and both n-d methods.",
+            "Partial: d >= 4 and d = 3 on unequal axes not stated; dependent-copula telescoping and the projected-coordinate "
+            "reading on unequal axes are false of the code (witnesses, findings); additivity of the concrete measures is "
+            "C09/C11/C12's subject; payoff expectations not modelled; six recorded findings, one fixed.",
+            "Lean 4 proof (telescoping over nested cells, induction over levels, kernel-decided counter-examples) + differential "
+            "correspondence",
             "DESIGN.md §4 C03"),
     "C04": ("Lean 4 model of compute_mu_h (with its own running cell boundary), mu_tilde, process_drift, the equivalent diffusion "
             "coefficient and the copula variance matrix combination. Theorems for every axis, cell-boundary function, origin and mass: "
@@ -40,17 +46,24 @@ CLAIMED = {
             "first axis, squared variance matrix).",
             "Lean 4 proof (loop invariant of the running boundary, finite-sum algebra, sandwich bounds) + differential correspondence + quadrature oracle",
             "DESIGN.md §4 C04"),
-    "C09": ("Lean 4 + Mathlib real analysis. For all inputs: the truncated wrapper integrates over the intersection and its density vanishes "
-            "outside; the coded split-at-zero / one-sided pattern is additive over adjacent intervals and obeys the sign rules under monotone "
-            "tails; integral_xn_exp_minus_x as coded equals the integral of x^n exp(-alpha*abs x) for every n, alpha > 0, a <= b and half-lines "
-            "(HasDerivAt + fundamental theorem of calculus; the pre-fix polynomial is refuted); the HEM mass / x / x^2 closed forms and the "
-            "variance-gamma x^n (n >= 1) equal the integrals of the models' own densities; Merton mass / x / x^2 and VG mass hold modulo "
-            "explicit derivative hypotheses on erf / E1 (theorem parameters, shown satisfiable, never axioms). Correspondence: exact-term "
-            "comparison (rational coefficients and exponents of the exponential closed forms) and 30-digit mpmath quadrature of every "
-            "family, route, n <= 6 and interval shape.",
-            "Partial: CGMY (incomplete gamma), Merton/VG mass with infinite ends and the scipy quad fallbacks are compared only; the erf/E1 "
-            "hypotheses are probed numerically on scipy's functions; two recorded CGMY findings.",
-            "Lean 4 proof (HasDerivAt + FTC, improper integrals) + differential correspondence + high-precision quadrature oracle",
+    "C09": ("Lean 4 + Mathlib real analysis. For all inputs: the truncated wrapper integrates over the intersection and its density "
+            "vanishes outside; the coded split-at-zero / one-sided pattern is additive over adjacent intervals and obeys the sign "
+            "rules under monotone tails; integral_xn_exp_minus_x, the HEM mass / x / x^2 closed forms and the variance-gamma x^n (n "
+            ">= 1) equal the integrals of the models' own densities on EVERY proper extended interval (finite or infinite ends, "
+            "straddling zero or not; HasDerivAt + fundamental theorem of calculus + improper integrals; the pre-fix polynomial is "
+            "refuted); Merton mass / x / x^2 (incl. infinite ends and the whole line: lambda, lambda mu, lambda(mu^2+sigma^2)), VG "
+            "mass, CGMY mass (every y < 2) and first moment on one side of zero incl. infinite ends, and the CGMY straddling second "
+            "moment in its gammainc form (incl. the un-tempered g = 0 / m = 0 branches) are theorems for every erf / E1 / upper and "
+            "lower incomplete gamma function satisfying explicit derivative and limit hypotheses (theorem parameters, proved "
+            "jointly satisfiable from Mathlib's Gaussian integral and Gamma, never axioms). Correspondence: every closed form is "
+            "returned by the model as a list of rational coefficients times atoms and compared term by term with the code (atoms by "
+            "mpmath, 2^-40 of a cancellation-aware scale); 30-digit quadrature oracle of every family, route, n <= 6 and interval "
+            "shape, on drawn, edge-of-constraint (CGMY g = 0 / m = 0, HEM p = 1, zero intensities ...) and re-initialised models.",
+            "Partial: scipy's special functions are only probed to satisfy the hypotheses; CGMY mass / first moment on intervals "
+            "touching 0, CGMY at g = 0 / m = 0 beyond the straddling second moment, and the scipy quad fallbacks are compared only; "
+            "recorded CGMY findings (negative y at zero, un-tempered side).",
+            "Lean 4 proof (HasDerivAt + FTC, improper integrals, Gaussian integrals) + term-by-term differential correspondence + "
+            "high-precision quadrature oracle",
             "DESIGN.md §4 C09"),
     "C10": ("Lean 4 theorems: the drift after any walk of representation changes is a0 - cRep(r0) + cRep(r_last), hence conversions are "
             "path-independent and reversible (finite and infinite variation); the canonical drift plus the jump part of the exponent at -i "
@@ -64,26 +77,34 @@ CLAIMED = {
             "not proved; five recorded CGMY findings (y<0, y=0, y=1 exponent/cumulant vs declared triplet).",
             "Lean 4 proof (conserved canonical drift over walks, field algebra) + differential correspondence + quadrature oracles",
             "DESIGN.md §4 C10"),
-    "C11": ("Lean 4 theorems: the Clayton formula over an abstract generator pair and over Real.rpow for every theta > 0, eta in [0,1] is "
-            "grounded (any d), has identity margins (d = 2, 3) and is 2-increasing on every rectangle of the extended plane without a "
-            "doubly-infinite corner (d = 2, convexity of the negative power proved); the executable theta = 1 / independent / completely "
-            "dependent models (with IEEE inf/NaN semantics) likewise; the stated conditional inverse inverts the conditional distribution. "
-            "Correspondence: exact (theta = 1, independent, dependent: F, volume, margin, conditional distribution, mixed derivative) plus "
-            "property oracles for general theta against mpmath.",
-            "d = 3 increasingness, the dependent copula with infinite ends, the mixed derivative and monotonicity/limits of the conditional "
-            "distribution are oracle-checked only; four recorded findings (eta in {0,1} NaN, independent copula at all-infinite corners).",
-            "Lean 4 proof (quadrant splitting, reflection, convexity) + differential correspondence + oracle",
+    "C11": ("Lean 4 theorems: the Clayton formula over an abstract generator pair and over Real.rpow for every theta > 0, eta in "
+            "[0,1] is grounded (any d), has identity margins (d = 2, 3) and is d-increasing in d = 2 and d = 3 on every box of the "
+            "extended space without an all-infinite corner (convexity and third-order differences of the negative power proved); "
+            "the completely dependent copula is d-increasing in d = 2 and 3 on every box incl. infinite end points; the independent "
+            "copula likewise outside the recorded deviation corners (negation witness there); the executable theta = 1 / "
+            "independent / dependent models (with IEEE inf/NaN semantics) likewise; the conditional distribution of Clayton is a "
+            "distribution function (values in [0,1], non-decreasing, limits 0 and 1) and the stated inverse inverts it. "
+            "Correspondence: exact (theta = 1, independent, dependent: F, volume, margin, conditional distribution, mixed "
+            "derivative) plus property oracles for general theta against mpmath, d = 2 and 3.",
+            "The mixed derivative, the conditional distribution as a derivative of F, and Clayton boxes with an all-infinite corner "
+            "in d = 3 are oracle-checked only; four recorded findings (eta in {0,1} NaN, independent copula at all-infinite "
+            "corners).",
+            "Lean 4 proof (quadrant splitting, reflection, convexity / higher-order differences) + differential correspondence + "
+            "oracle",
             "DESIGN.md §4 C11"),
-    "C12": ("Lean 4 theorems over an abstract tail-integral family and any linearly ordered coordinate type: the fast 2-d / 3-d formulas equal "
-            "the general recursion for every sign pattern not containing the origin (8 / 26 patterns), the mass is additive under axis "
-            "splits away from 0 (with the exact defect formula for a split at 0), other coordinates over the whole line give the marginal "
-            "mass (d = 2, 3), sub-families agree with the I-margins, and d = 2 non-negativity follows from the 2-increasing hypothesis of "
-            "C11. Correspondence: the model fed with the implementation's own tail integrals, and exactly with TableMeasure margins plus "
-            "theta = 1 Clayton / independent / dependent copulas; oracles for additivity, margins, non-negativity, density quadrature, "
-            "inverse tail integral.",
-            "d = 3 non-negativity, the density integral and the inverse-tail root search are oracle-checked; five recorded findings (zero end "
-            "points, origin box, CGMY tail at 0, independent all-infinite corner).",
-            "Lean 4 proof (case analysis over sign patterns + ring) + differential correspondence + oracle",
+    "C12": ("Lean 4 theorems over an abstract tail-integral family and any ordered coordinate type: the general recursion _mass_nd "
+            "is additive under an axis split away from 0 and a whole-line coordinate can be erased (margins) in EVERY dimension "
+            "(induction on the coordinate list; exact defect formula for a split at 0); the fast 2-d / 3-d formulas equal the "
+            "general recursion for every sign pattern not containing the origin (8 / 26 patterns); sub-families agree with the "
+            "I-margins; non-negativity in d = 2 and d = 3 from an explicit 2-/3-increasing hypothesis, discharged for the Clayton "
+            "copula by C11 (so only finiteness and monotonicity of the marginal tails remain assumed). Correspondence: the model "
+            "fed with the implementation's own tail integrals, and exactly with TableMeasure margins plus theta = 1 Clayton / "
+            "independent / dependent copulas, in d = 2, 3 and 4; oracles for additivity (every index subset), margins, "
+            "non-negativity, density quadrature, inverse tail integral.",
+            "d >= 4 non-negativity, the density integral and the inverse-tail root search are oracle-checked; five recorded "
+            "findings (zero end points, origin box, CGMY tail at 0, independent all-infinite corner).",
+            "Lean 4 proof (induction on coordinates, case analysis over sign patterns + ring) + differential correspondence + "
+            "oracle",
             "DESIGN.md §4 C12"),
     "C13": ("Lean 4 theorems about a hand-written model of CTMCGrid.refine and the closed-form constructors "
             "(refine^k: old states at 2^k*i, inserted point = the grid's own cell boundary strictly inside the gap, strict "
@@ -132,17 +153,26 @@ CLAIMED = {
             "probability-step median are oracle-checked only.",
             "Lean 4 proof (telescoping over an index function, grid-sum lemma per coordinate) + behaviour-fed differential correspondence",
             "DESIGN.md §4 C01"),
-    "C02": ("Lean 4 model of the six samplers as functions of the uniform u over Q with explicit u-cells. Proved for all inputs: draw "
-            "specifications (state k is returned exactly on its listed cells, cells disjoint and covering) for alias, binary search tree, "
-            "Huffman, inversion and adapted 1-d for arbitrary tables; total cell length = law of the tables; zero-probability states get no "
-            "cell of positive length; the Huffman construction as coded realises p for every p >= 0 (any heap insertion position); the "
-            "inversion sampler as a state machine (memo, storage cap, skip pointer) returns for u the same state after any history of "
-            "earlier draws as a fresh instance. Correspondence: exact dyadic vectors through both sides (tables and draws), a Riemann-exact "
-            "law of the implementation on the model's cells for factory-built chains, history and batch-entry-point streams.",
-            "Partial: alias and BST *construction* laws and the table slot counts are compared (certificate applied to the implementation's "
-            "tables), not proved; n-d adapted sampler has no Lean model; inversion history independence with skipped indices compared only; "
-            "three recorded findings.",
-            "Lean 4 proof (cell decompositions, Huffman induction, state-machine invariant) + differential correspondence",
+    "C02": ("Lean 4 model of the samplers as functions of the uniform u over Q with explicit u-cells. Proved for all inputs, in "
+            "exact arithmetic: draw specifications (state k is returned exactly on its listed cells, cells disjoint and covering) "
+            "AND construction laws for alias (Walker/Vose as coded), binary search tree (in-order construction as coded: every leaf "
+            "visited once, cell length p_k), Huffman (any heap insertion position), the table method (exactly 256 slots, floor(256 "
+            "p_k) per state, residual theta/sum theta is a probability vector realised by the residual alias; create_table raises "
+            "exactly when every 256 p_i is an integer), inversion as a state machine (memo, storage cap, skip pointer: after any "
+            "history the draw equals a fresh instance's, for grids without skipped indices under any cap and for arbitrary skip "
+            "patterns while the cap is not reached), the adapted 1-d bisection, and the n-dimensional adapted binary search (bucket "
+            "search then axis-cycling bisection / precomputed axis vectors): draw_spec for arbitrary tables, and for the tables "
+            "_pre_computation builds under a non-negative box mass additive under midpoint cuts every non-origin grid state gets "
+            "cells of total length its mass, origin / outside / zero-mass states are never returned. Correspondence: exact dyadic "
+            "vectors through both sides (tables and draws), the implementation's extracted tables fed to the model for "
+            "factory-built 1-d, 2-d and 3-d chains, Riemann-exact law of the implementation on the model's cells, history streams "
+            "(interleaved draws, lowered storage cap, public cost-reset calls), cross-instance histories (several samplers on "
+            "identical grids in one process, references taken from the pure enumeration model) and batch entry points.",
+            "Partial: float effects (alias clean-up loops, BST threshold accumulation, int(256 p)) and the 2^32-point lattice of "
+            "the table method are compared, not modelled; inversion with skipped indices once the cap is reached is false of the "
+            "code (witness + recorded finding); additivity of the real joint mass is C01/C09/C12's subject; four recorded findings.",
+            "Lean 4 proof (cell decompositions in continuation style, structural induction on tree/heap constructions, "
+            "state-machine invariants) + differential correspondence",
             "DESIGN.md §4 C02"),
     "C07": ("Lean 4 theorems over Q for every number of paths and every sample: the path loop stores df*notional*payoff(path i) at row i for "
             "exactly n rows (each path once); price = df*notional*mean; squared error = unbiased variance / n per component (the pre-fix "
